@@ -31,6 +31,8 @@ NCLASS = 14
 TOK_KINDS = {'var', 'kw', 'lit', 'call', 'not'}
 NAMED_KINDS = {'var', 'kw', 'lit', 'call', 'prop', 'cmp'}
 MAX_PER_SITE = 40
+# named deviations of ExprLexer.tla (AllDevs); TLC names the one a rejected record exhibits
+DEVS = {'exponent-plus', 'exponent-leading-zero', 'lookahead-past-end'}
 
 WHY_SITE = {
     'render-lex': 'parser:render-lex', 'accepts-nonsentence': 'parser:accepts-nonsentence',
@@ -91,6 +93,43 @@ def replay_of(rec, extra=None):
     return rp
 
 
+class Part:
+    """Stands in for the Check while the lexer and the parser halves run side by side; merged afterwards."""
+
+    def __init__(self):
+        self.tlc, self.viol, self.notes, self.samples, self.cov, self.exc = [], [], [], [], {}, None
+
+    def add_tlc(self, label, r):
+        self.tlc.append((label, r))
+
+    def violation(self, site, what, rp):
+        self.viol.append((site, what, rp))
+
+    def note(self, s):
+        self.notes.append(s)
+
+    def sample(self, x):
+        self.samples.append(x)
+
+    def count(self, key, n):
+        self.cov[key] = self.cov.get(key, 0) + n
+
+    def merge(self, ck):
+        for label, r in self.tlc:
+            ck.add_tlc(label, r)
+        for v in self.viol:
+            ck.violation(*v)
+        for s in self.notes:
+            ck.note(s)
+        for x in self.samples:
+            ck.sample(x)
+        for k, n in self.cov.items():
+            ck.cov[k] = ck.cov.get(k, 0) + n
+
+
+HALF = max(2, vplib.NCPU // 2)      # TLC workers of each half while both run
+
+
 class Collector:
     """Real runs that are not exactly as predicted, waiting for TLC's judgement."""
 
@@ -103,39 +142,61 @@ class Collector:
 
 # ------------------------------------------------------------------------------------ lexer (E, G)
 
+def iter_dump(path, var='tc'):
+    """The JSON vectors of a TLC dump, one at a time (vplib.read_dump_json without the list)."""
+    pre, pre2 = '/\\ %s = "' % var, '%s = "' % var
+    with open(path, encoding='utf-8') as f:
+        for line in f:
+            if line.startswith(pre):
+                yield json.loads(json.loads(line[len(pre) - 1:]))
+            elif line.startswith(pre2):
+                yield json.loads(json.loads(line[len(pre2) - 1:]))
+
+
 def lexer_part(ck, sd, tier, col):
-    cfgs = [('ExprLexer_full3raw.cfg', 'all 27 character classes, L<=3, bare text (EOF instead of the end marker)'),
-            ('ExprLexer_full3.cfg', 'all 27 character classes, L<=3, text followed by }}'),
-            ('ExprLexer_core4.cfg', '20 classes (one of each group of interchangeable operators), L<=4, text followed by }}')]
+    cfgs = [('ExprLexer_full3raw.cfg', 'all 27 character classes, L<=3, bare text (EOF instead of the end marker)', True),
+            ('ExprLexer_full3.cfg', 'all 27 character classes, L<=3, text followed by }}', True),
+            ('ExprLexer_core4.cfg', '20 classes (one of each group of interchangeable operators), L<=4, text followed by }}', True)]
     if tier == 'thorough':
-        cfgs += [('ExprLexer_core4raw.cfg', '20 classes, L<=4, bare text'),
-                 ('ExprLexer_full4.cfg', 'all 27 character classes, L<=4, text followed by }}'),
-                 ('ExprLexer_num6.cfg', 'the 11 classes numbers are made of, L<=6, text followed by }}'),
-                 ('ExprLexer_core5.cfg', '20 classes, L<=5, text followed by }} (model only)')]
+        cfgs += [('ExprLexer_core4raw.cfg', '20 classes, L<=4, bare text', True),
+                 ('ExprLexer_full4.cfg', 'all 27 character classes, L<=4, text followed by }}', True),
+                 ('ExprLexer_num5.cfg', 'the 11 classes numbers are made of, L<=5, text followed by }}', True),
+                 ('ExprLexer_num6.cfg', 'the 11 number classes, L<=6, text followed by }} (model only)', False),
+                 ('ExprLexer_core5.cfg', '20 classes, L<=5, text followed by }} (model only)', False)]
     rots = 2 if tier == 'quick' else 3
-    seen = set()
-    for cfg, what in cfgs:
-        emit = cfg != 'ExprLexer_core5.cfg'
-        r = vplib.run_tlc('ExprLexer', cfg, dump='vectors' if emit else None, timeout=3000, heap='4g' if tier == 'thorough' else None)
+    for cfg, what, emit in cfgs:
+        r = vplib.run_tlc('ExprLexer', cfg, dump='vectors' if emit else None, timeout=3000, workers=HALF,
+                          heap='4g' if tier == 'thorough' else None)
         ck.add_tlc('ExprLexer %s: DFA == token languages + longest viable prefix, progress, shape' % what, r)
         if r.violated:
             raise Inconclusive('specification ExprLexer.tla violates its own invariant %s with %s (model-level only)'
                                % (r.violated, cfg))
         if not emit:
             continue
-        vecs = vplib.read_dump_json(os.path.join(r.dir, 'vectors.dump'))
-        if len(vecs) != r.distinct:
-            raise Inconclusive('dump has %d vectors, TLC reported %d states' % (len(vecs), r.distinct))
-        vecs = [v for v in vecs if tuple(v['s']) not in seen]
-        seen.update(tuple(v['s']) for v in vecs)
+        # stream: dump -> harness input + predictions file -> harness output (hundreds of thousands of vectors)
         tag = cfg.split('.')[0]
-        fin, fout = os.path.join(sd, tag + '.in.jsonl'), os.path.join(sd, tag + '.out.jsonl')
-        vplib.write_jsonl(fin, [{'id': i, 's': v['s']} for i, v in enumerate(vecs)])
-        vplib.run_harness(['expr-lex-vectors', fin, fout, str(rots)])
+        fin, fout, fpred = (os.path.join(sd, tag + x) for x in ('.in.jsonl', '.out.jsonl', '.pred.jsonl'))
+        nvec = nontrivial = 0
+        mid = None
+        with open(fin, 'w') as fi, open(fpred, 'w') as fp:
+            for v in iter_dump(os.path.join(r.dir, 'vectors.dump')):
+                fi.write(json.dumps({'id': nvec, 's': v['s']}, separators=(',', ':')) + '\n')
+                fp.write(json.dumps(v, separators=(',', ':')) + '\n')
+                nvec += 1
+                if len(v['toks']) >= 2 or (v['err'] and v['off'] > 0):
+                    nontrivial += 1
+                if nvec == r.distinct // 2:
+                    mid = v
+        if nvec != r.distinct:
+            raise Inconclusive('dump has %d vectors, TLC reported %d states' % (nvec, r.distinct))
+        os.remove(os.path.join(r.dir, 'vectors.dump'))
+        harness(['expr-lex-vectors', fin, fout, str(rots)])
         n = 0
-        with open(fout) as f:
-            for v, line in zip(vecs, f):
-                o = json.loads(line)
+        with open(fout) as f, open(fpred) as fp:
+            for line, pline in zip(f, fp):
+                o, v = json.loads(line), json.loads(pline)
+                if o['id'] != n:
+                    raise Inconclusive('harness output out of order')
                 n += 1
                 pred = (v['toks'], v['err'], v['off'] if v['err'] else 0)
                 for run in o['runs']:
@@ -144,24 +205,26 @@ def lexer_part(ck, sd, tier, col):
                                      replay_of(run, {'problem': run.get('panic') or run.get('note')}))
                         continue
                     real = (run['toks'], run['err'], run['off'] if run['err'] else 0)
-                    if real != pred:
-                        ascode = (v['ctoks'], v['cerr'], v['coff'] if v['cerr'] else 0)
-                        col.add(run, dev=v['dev'] if real == ascode else 'none', predicted={'toks': v['toks'], 'err': v['err'], 'off': v['off']})
-        if n != len(vecs):
-            raise Inconclusive('harness returned %d of %d lexer vectors' % (n, len(vecs)))
-        ck.cov['evaluations'] += len(vecs) * rots
-        ck.cov['traces_validated_against_impl'] += len(vecs)
-        ck.cov['distinct_nontrivial'] += sum(1 for v in vecs if len(v['toks']) >= 2 or (v['err'] and v['off'] > 0))
-        ck.cov['lexer_vectors'] = ck.cov.get('lexer_vectors', 0) + len(vecs)
-        if vecs:
-            ck.sample({'lexer_vector': vecs[len(vecs) // 2]})
+                    if real != pred and len(col.recs) < 30000:
+                        col.add(run, predicted={'toks': v['toks'], 'err': v['err'], 'off': v['off']},
+                                predicted_for_code_as_is={'dev': v['dev'], 'toks': v['ctoks'], 'err': v['cerr'], 'off': v['coff']})
+        if n != nvec:
+            raise Inconclusive('harness returned %d of %d lexer vectors' % (n, nvec))
+        for x in (fin, fout, fpred):
+            os.remove(x)
+        ck.count('evaluations', nvec * rots)
+        ck.count('traces_validated_against_impl', nvec)
+        ck.count('distinct_nontrivial', nontrivial)
+        ck.count('lexer_vectors', nvec)
+        if mid is not None:
+            ck.sample({'lexer_vector': mid})
 
 
 # ----------------------------------------------------------------------------------- parser (E, G)
 
 def parser_part(ck, sd, tier, col):
     # every token string up to 4 with verdict, tree and error index
-    r4 = vplib.run_tlc('ExprParser', 'ExprParser_vec4.cfg', dump='vectors', timeout=1200)
+    r4 = vplib.run_tlc('ExprParser', 'ExprParser_vec4.cfg', dump='vectors', timeout=1200, workers=HALF)
     ck.add_tlc('ExprParser N<=4 (14 token classes): accepted<=>derivable, tree==derivation tree, unambiguous, one error inside', r4)
     if r4.violated:
         raise Inconclusive('specification ExprParser.tla violates its own invariant %s (model-level only)' % r4.violated)
@@ -170,7 +233,7 @@ def parser_part(ck, sd, tier, col):
         raise Inconclusive('dump has %d vectors, TLC reported %d states' % (len(vecs), r4.distinct))
     fin, fout = os.path.join(sd, 'p4.in.jsonl'), os.path.join(sd, 'p4.out.jsonl')
     vplib.write_jsonl(fin, [{'id': i, 'ts': v['ts']} for i, v in enumerate(vecs)])
-    vplib.run_harness(['expr-parse-vectors', fin, fout])
+    harness(['expr-parse-vectors', fin, fout])
     outs = vplib.read_jsonl(fout)
     if len(outs) != len(vecs):
         raise Inconclusive('harness returned %d of %d parser vectors' % (len(outs), len(vecs)))
@@ -183,13 +246,13 @@ def parser_part(ck, sd, tier, col):
                 (not v['ok'] or project(v['tree'], run['names']) == run['tree']) and (v['ok'] or run['inside'])
             if not same:
                 col.add(run, predicted={'ok': v['ok'], 'errAt': v['errAt'], 'tree': v['tree']})
-    ck.cov['evaluations'] += 3 * len(vecs)
-    ck.cov['traces_validated_against_impl'] += len(vecs)
+    ck.count('evaluations', 3 * len(vecs))
+    ck.count('traces_validated_against_impl', len(vecs))
     ck.sample({'parser_vector': next(v for v in vecs if v['ok'] and len(v['ts']) == 4)})
 
     # all token strings up to N: the sentence table printed by TLC against the real parser
     n, cfg = (5, 'ExprParser_n5.cfg') if tier == 'quick' else (6, 'ExprParser_n6.cfg')
-    rn = vplib.run_tlc('ExprParser', cfg, timeout=3400, heap='6g' if tier == 'thorough' else None)
+    rn = vplib.run_tlc('ExprParser', cfg, timeout=3400, workers=HALF, heap='6g' if tier == 'thorough' else None)
     ck.add_tlc('ExprParser N<=%d: same invariants + bracket-balance pruning is sound; prints the sentence table' % n, rn)
     if rn.violated:
         raise Inconclusive('specification ExprParser.tla violates its own invariant %s at N=%d (model-level only)' % (rn.violated, n))
@@ -205,7 +268,7 @@ def parser_part(ck, sd, tier, col):
         raise Inconclusive('sentence table printed by TLC (%d entries) is inconsistent with the N<=4 dump' % len(table))
     facc, fenum = os.path.join(sd, 'acc.jsonl'), os.path.join(sd, 'enum.jsonl')
     vplib.write_jsonl(facc, list(table.values()))
-    vplib.run_harness(['expr-parse-enum', facc, str(n), fenum])
+    harness(['expr-parse-enum', facc, str(n), fenum])
     lines = vplib.read_jsonl(fenum)
     summary = lines[-1]['summary']
     if summary['strings'] != expect_states or summary['table_entries_met'] != len(table):
@@ -217,11 +280,11 @@ def parser_part(ck, sd, tier, col):
             continue
         ent = table.get(tuple(run['ts']))
         col.add(run, predicted={'ok': ent is not None, 'tree': ent['tree'] if ent else None})
-    ck.cov['evaluations'] += summary['runs']
-    ck.cov['traces_validated_against_impl'] += summary['strings']
-    ck.cov['distinct_nontrivial'] += len(table)
-    ck.cov['sentences_in_table'] = len(table)
-    ck.cov['token_strings_enumerated'] = summary['strings']
+    ck.count('evaluations', summary['runs'])
+    ck.count('traces_validated_against_impl', summary['strings'])
+    ck.count('distinct_nontrivial', len(table))
+    ck.count('sentences_in_table', len(table))
+    ck.count('token_strings_enumerated', summary['strings'])
     return vecs, table
 
 
@@ -241,7 +304,7 @@ def lint_part(ck, sd, tier, vecs, table, long_recs):
     cases += [{'ts': r['ts'], 'ok': r['ok']} for r in long_recs[:300 if tier == 'quick' else 3000]]
     fin, fout = os.path.join(sd, 'lint.in.jsonl'), os.path.join(sd, 'lint.out.jsonl')
     vplib.write_jsonl(fin, [{'id': i, 'ts': c['ts']} for i, c in enumerate(cases)])
-    vplib.run_harness(['expr-lint', fin, fout])
+    harness(['expr-lint', fin, fout])
     outs = vplib.read_jsonl(fout)
     if len(outs) != len(cases):
         raise Inconclusive('harness returned %d of %d lint cases' % (len(outs), len(cases)))
@@ -286,17 +349,39 @@ def lint_verdict(expected_ok, o, s):
 
 def run(ck, tier):
     sd = vplib.subdir('c04')
-    builder = threading.Thread(target=lambda: build_quietly())
+    global _builder
+    _builder = builder = threading.Thread(target=build_quietly)
     builder.start()
-    col = Collector()
-    lexer_part(ck, sd, tier, col)
-    vecs, table = parser_part(ck, sd, tier, col)
+    col_lex, col_par = Collector(), Collector()
+    lex, par = Part(), Part()
+    result = {}
+
+    def guarded(part, fn):
+        try:
+            result[part] = fn()
+        except BaseException as e:      # re-raised in the main thread
+            part.exc = e
+    tl = threading.Thread(target=guarded, args=(lex, lambda: lexer_part(lex, sd, tier, col_lex)))
+    tp = threading.Thread(target=guarded, args=(par, lambda: parser_part(par, sd, tier, col_par)))
+    tl.start()
+    tp.start()
+    tl.join()
+    tp.join()
     builder.join()
+    for part in (lex, par):
+        part.merge(ck)
+    for part in (lex, par):
+        if part.exc is not None:
+            raise part.exc
+    vecs, table = result[par]
+    col = Collector()
+    col.recs = col_lex.recs[:10000] + col_par.recs[:10000]
+    ndiff = len(col_lex.recs) + len(col_par.recs)
 
     # ---- T: random long inputs, plus every real run that differed from its prediction, judged by TLC
-    n = 5000 if tier == 'quick' else 40000
+    n = 4000 if tier == 'quick' else 40000
     ftrace = os.path.join(sd, 'random.ndjson')
-    vplib.run_harness(['expr-random', str(n), '7', '40', str(vplib.seed()), ftrace])
+    harness(['expr-random', str(n), '7', '40', str(vplib.seed()), ftrace])
     rand = vplib.read_jsonl(ftrace)
     if len(rand) != n:
         raise Inconclusive('recorder wrote %d of %d records' % (len(rand), n))
@@ -304,20 +389,33 @@ def run(ck, tier):
         if rec.get('panic'):
             ck.violation('parser:panic', 'input %r: %s' % (rec['text'], rec['panic']), replay_of(rec, {'problem': rec['panic']}))
     rand = [rec for rec in rand if not rec.get('panic')]
-    differing = col.recs[:20000]
-    if len(col.recs) > len(differing):
-        ck.note('%d real runs differ from their prediction; the first %d are judged' % (len(col.recs), len(differing)))
-    allrecs = [(rec, meta) for rec, meta in differing] + [(rec, {}) for rec in rand]
+    nl = 1500 if tier == 'quick' else 15000
+    flex = os.path.join(sd, 'lexrandom.ndjson')
+    harness(['expr-lex-random', str(nl), '5', '16', str(vplib.seed()), flex])
+    lexrand = vplib.read_jsonl(flex)
+    if len(lexrand) != nl:
+        raise Inconclusive('recorder wrote %d of %d lexer records' % (len(lexrand), nl))
+    for rec in lexrand:
+        if rec.get('panic') or rec.get('note'):
+            ck.violation('lexer:observable', 'input %s: %s' % (rec['text'], rec.get('panic') or rec.get('note')),
+                         replay_of(rec, {'problem': rec.get('panic') or rec.get('note')}))
+    lexrand = [rec for rec in lexrand if not (rec.get('panic') or rec.get('note'))]
+    differing = col.recs
+    if ndiff > len(differing):
+        ck.note('%d real runs differ from their prediction; %d of them are judged' % (ndiff, len(differing)))
+    allrecs = [(rec, meta) for rec, meta in differing] + [(rec, {}) for rec in rand] + [(rec, {}) for rec in lexrand]
     text = ''.join(trace_line(rec) + '\n' for rec, _ in allrecs)
     t, cnt, mism, drift = judge(text)
     ck.add_tlc('ExprTrace: %d recorded executions (%d runs differing from their prediction + %d random token strings '
-               'of length 7..40)' % (cnt, len(differing), len(rand)), t)
+               'of length 7..40 + %d random character strings of length 5..18)' % (cnt, len(differing), len(rand), len(lexrand)), t)
     if cnt != len(allrecs):
         raise Inconclusive('TLC read %d of %d trace records' % (cnt, len(allrecs)))
+    if len(mism) >= 20000 or len(drift) >= 20000:
+        raise Inconclusive('more than 20000 rejected records: the trace verdict is truncated')
     report(ck, allrecs, mism, drift)
-    ck.cov['traces_validated_against_impl'] += len(rand)
-    ck.cov['evaluations'] += len(rand)
-    ck.cov['runs_differing_from_prediction'] = len(col.recs)
+    ck.cov['traces_validated_against_impl'] += len(rand) + len(lexrand)
+    ck.cov['evaluations'] += len(rand) + len(lexrand)
+    ck.cov['runs_differing_from_prediction'] = ndiff
     ck.cov['random_accepted'] = sum(1 for r in rand if r['ok'])
     ck.sample({'trace_record': {k: rand[0][k] for k in ('ts', 'text', 'ok', 'errAt', 'msg')}})
     bad = {i for i, _ in mism}
@@ -345,6 +443,16 @@ def run(ck, tier):
         'message must equal the one returned by ExprParser.Parse on the same text']
 
 
+_builder = None
+
+
+def harness(args):
+    """run_harness once the (single) background build is finished"""
+    if _builder is not None:
+        _builder.join()
+    return vplib.run_harness(args)
+
+
 def build_quietly():
     try:
         vplib.build_harness()
@@ -357,8 +465,8 @@ def report(ck, allrecs, mism, drift):
     for idx, why in mism:
         rec, meta = allrecs[idx - 1]
         site = WHY_SITE.get(why, 'trace:' + why)
-        if rec['kind'] == 'lex' and why == 'lex-rejects' and meta.get('dev', 'none') != 'none':
-            site = 'lexer:' + meta['dev']
+        if why in DEVS:
+            site = 'lexer:' + why
         per_site[site] = per_site.get(site, 0) + 1
         if per_site[site] > MAX_PER_SITE:
             continue
@@ -370,7 +478,7 @@ def report(ck, allrecs, mism, drift):
             what = ('input %r (tokens %s): the real parser %s, the grammar of ExprParser.tla says otherwise (%s)'
                     % (rec['text'], ' '.join(rec['ts']),
                        'accepts it' if rec['ok'] else 'rejects it at token %d (%s)' % (rec['errAt'], rec.get('msg', '')), why))
-        ck.violation(site, what, replay_of(rec, {'why': why, 'dev': meta.get('dev', 'none'), 'predicted': meta.get('predicted')}))
+        ck.violation(site, what, replay_of(rec, {'why': why, 'dev': why if why in DEVS else 'none', 'predicted': meta.get('predicted')}))
     for site, cnt in per_site.items():
         if cnt > MAX_PER_SITE:
             ck.note('site %s: %d violating runs, the first %d are recorded' % (site, cnt, MAX_PER_SITE))
